@@ -131,6 +131,9 @@ Definition under_identical (a b : under) : bool :=
   | _, _ => false
   end.
 
+Definition is_byte_or_rune (u : under) : bool :=
+  match u with UBasic b => basic_eqb b BUint8 || basic_eqb b BInt32 | _ => false end.
+
 (* types.ConvertibleTo(V, T) for non-constant values on this palette *)
 Definition convertible (e : env) (v t : ty) : bool :=
   let uv := underlying e v in
@@ -145,6 +148,9 @@ Definition convertible (e : env) (v t : ty) : bool :=
      | UBasic x, UBasic y =>
          (is_numeric_kind x && is_numeric_kind y)
          || (is_int_kind x && basic_eqb y BString)
+     (* string <-> []byte / []rune (element type with underlying uint8 / int32) *)
+     | UBasic x, USlice el => basic_eqb x BString && is_byte_or_rune (underlying e el)
+     | USlice el, UBasic y => basic_eqb y BString && is_byte_or_rune (underlying e el)
      | _, _ => false
      end.
 
